@@ -909,6 +909,16 @@ class WorkflowConductor(object):
         if not staged_task and not task_state_entry:
             raise exc.InvalidTaskStateEntry(task_id)
 
+        # Ignore the event for an item if the items of the task are not being tracked, i.e.
+        # the first status of an action is reported after the task is already completed by
+        # the other items, or after the task is staged again for retry.
+        if (
+            isinstance(event, events.TaskItemActionExecutionEvent)
+            and task_state_entry
+            and (not staged_task or "items" not in staged_task)
+        ):
+            return task_state_entry
+
         # Create new task state entry if it does not exist or if it is an engine command.
         if not task_state_entry or task_id in events.ENGINE_EVENT_MAP.keys():
             task_state_entry = self.add_task_state(
@@ -931,6 +941,10 @@ class WorkflowConductor(object):
             and event.status
             and event.status in statuses.STARTING_STATUSES
         ):
+            # The task cannot run again if it is not staged. Ignore the event.
+            if not staged_task:
+                return task_state_entry
+
             task_state_entry = self.add_task_state(
                 task_id,
                 staged_task["route"],
